@@ -260,19 +260,31 @@ PROPS = {
         trusted_base=["PyYAML (docutils string settings), docutils OptionParser"],
     ),
     "C17": dict(
-        level="exploration",
-        contracts=[],
+        level="other",
+        contracts=["contracts.html"],
         harness=True,
         explanation=(
-            "BOUNDED ONLY: every html_block / html_inline token that is not a convertible form reaches the doctree as a "
+            "PROVED (pyvc, every text, line and configuration): default_html returns exactly one raw node, format html, "
+            "whose text is its argument, at the given source and line; every return of html_to_nodes before the convertibility "
+            "test (no HTML extension enabled; the HTML AST could not be built - any exception; the AST is empty) is "
+            "pass-through: the last node is that raw node with exactly the source text (after the GFM filter iff gfm_only), "
+            "at most one node - the parse warning - precedes it, and with no extension enabled there is exactly one node; "
+            "conversion is only attempted with an extension enabled; the GFM filter is applied before anything else reads the "
+            "text.  ASSUMED: RE_FLOW.subn with the module's callback is an uninterpreted function GfmFilter (which tags the "
+            "regular expression matches is NOT modelled), docutils' raw constructor, tokenize_html / Element.strip return an "
+            "element or raise.  NOT under contract: the convertibility test itself and the img / admonition conversions "
+            "(generator expressions over a MutableSequence subclass, directive text building).  BOUNDED: every html_block / "
+            "html_inline token that is not a convertible form reaches the doctree as a "
             "raw html node with exactly the token text under all four HTML-extension subsets; <img> and "
             "<div class=admonition> (title paragraph, <p> flattening, entities, inner Markdown) give the same doctree as "
             "the equivalent image / admonition directive; in GFM mode no raw node still opens or closes a tag of the "
             "disallowed list, for every tag in 11 spellings (including '<tag/attr>' and upper case)."
         ),
-        assumptions=["markdown-it-py html_block / html_inline tokenisation"],
-        trusted_base=[],
-        technique="bounded run-time stand-in (generated HTML snippets, directive-spelling equivalence) - no contract discharged for html_to_nodes yet",
+        assumptions=["markdown-it-py html_block / html_inline tokenisation",
+                     "statements of html_to_nodes from `if not all(` on are outside the prefix contract"],
+        trusted_base=["re (RE_FLOW as an uninterpreted function)", "docutils.nodes.raw", "parse_html.tokenize_html / Element.strip (C16)"],
+        technique="contract-based deductive verification (prefix contract) of the pass-through part of html_to_nodes and of default_html; "
+                  "bounded run-time stand-in (generated HTML snippets, directive-spelling equivalence) for the conversions and the tag filter's regular expression",
     ),
     "C04": dict(
         level="other",
